@@ -105,7 +105,14 @@ def oracleC05 (c : PCase) (a : PObs) (b? : Option PObs) : Bool :=
   match b? with
   | none => false
   | some b =>
-    let keep := (List.zip c.ops a.replies).filter fun (op, r) => !(isErrPR r.1 && isWriteOp op)
+    let keep := if c.twin == "filter1" then
+        -- every call but the first refused one must be answered exactly as in the history without it
+        (let k := (List.range c.ops.length).find? fun i =>
+           match c.ops[i]?, a.replies[i]? with
+           | some op, some r => isErrPR r.1 && isWriteOp op
+           | _, _ => false
+         (List.zip (List.range c.ops.length) (List.zip c.ops a.replies)).filterMap fun (i, x) => if some i == k then none else some x)
+      else (List.zip c.ops a.replies).filter fun (op, r) => !(isErrPR r.1 && isWriteOp op)
     (keep.map (·.2)) == b.replies && a.file == b.file &&
       !(a.replies.any fun r => r.1 == PR.panic)
 
